@@ -28,3 +28,30 @@ Theorem C10_nickname_and_number_name_the_same_candidate_partial : forall (st : p
   getCid st nick = Ok cid /\ getCid st d = Ok cid.
 Proof. exact nick_or_number. Qed.
 Print Assumptions C10_nickname_and_number_name_the_same_candidate_partial.
+
+(* (b) line order and multiplier split/merge, the part that is a statement about the profile alone: two presentations of the same
+   bag of ballots ([same_bag]: lines permuted, a line with multiplier m1 + m2 split into two lines or two lines merged, any number
+   of times) have the same number of ballots -- hence the same quota (C04) -- and give every candidate the same first-preference
+   total, and the value standing with each candidate when a Gregory count starts is the same in the count's own arithmetic
+   (Proofs/C10First.v).  That the whole records then agree is decided by the re-presentation oracle: _partial. *)
+From Coq Require Import Permutation.
+From Droop Require Import Model.Arith Model.Election Proofs.Zlike Proofs.Conserve Proofs.ConserveCount Proofs.Majority Proofs.C10First.
+Theorem C10_presentations_agree_at_the_start_partial : forall pr pr' : Election.profile,
+  same_bag (pr_ballots pr) (pr_ballots pr') ->
+  ballot_total pr = ballot_total pr' /\ forall m, first_prefs pr m = first_prefs pr' m.
+Proof. exact presentations_agree_at_the_start. Qed.
+Print Assumptions C10_presentations_agree_at_the_start_partial.
+
+Theorem C10_presentations_start_with_the_same_tallies_partial : forall A S (ZL : zlike A S), exact A = false -> forall pr pr' m,
+  wf_profile pr -> wf_profile pr' -> same_bag (pr_ballots pr) (pr_ballots pr') ->
+  stand A S ZL (mk_ballots A (pr_ballots pr)) m = stand A S ZL (mk_ballots A (pr_ballots pr')) m.
+Proof. exact presentations_start_with_the_same_tallies. Qed.
+Print Assumptions C10_presentations_start_with_the_same_tallies_partial.
+
+(* the relation is not empty of interest: three lines in another order with one multiplier split *)
+Example C10_same_bag_example :
+  same_bag [(3, [1; 2]); (2, [2]); (1, [3; 2])]%Z [(1, [3; 2]); (1, [1; 2]); (2, [1; 2]); (2, [2])]%Z.
+Proof.
+  eapply sb_trans; [apply (sb_split [] [(2, [2]); (1, [3; 2])] 1 2 [1; 2])%Z|]. apply sb_perm. cbn [app].
+  exact (Permutation_app_comm [(1, [1; 2]); (2, [1; 2]); (2, [2])]%Z [(1, [3; 2])]%Z).
+Qed.
